@@ -47,7 +47,8 @@ def _scenario(draw, tier):
                 ops.append(["step"])
             else:
                 ops.append(["advance", lc.maybe_long(draw, draw(lc.advance_sizes()), cfg)])
-        return dict(mode=mode, cfg=cfg, ops=ops)
+        # (a coarse wall clock - readings that do not move for 15.6 ms or 1 s - must not matter to step counting)
+        return dict(mode=mode, cfg=cfg, ops=ops, clock_res=draw(st.sampled_from([0.0, 0.0, 0.0156, 1.0])))
     if mode == "pool":
         n = draw(st.integers(1, 5))
         cfgs = [draw(lc.sampler_config(max_d=2)) for _ in range(n)]
@@ -140,8 +141,11 @@ def run_arith(sc, V, stats):
     cfg = sc["cfg"]
     c = rctx.new_run(cfg["seed"])
     seams.seed_global_streams(cfg["seed"])
-    with seams.Seams(clock=seams.FakeClock()):
+    clock = seams.FakeClock(resolution=sc.get("clock_res", 0.0))
+    c.clock = clock
+    with seams.Seams(clock=clock):
         h = lc.Harnessed(cfg, "s0")
+        c.eval_cost = c.grad_cost = 1e-6  # a microsecond per evaluation: many steps fit between two clock readings
         per = h.n_walkers if h.is_ensemble else 1
         _lengths_consistent(V, h, "after construction")
         for op in sc["ops"]:
